@@ -51,6 +51,9 @@ def spend_cases(draw):
     typ = draw(st.sampled_from(S.TYPES))
     ninputs = 1 if typ.startswith('p2tr') and draw(st.integers(0, 3)) else None
     decoy = draw(st.integers(0, 4)) == 0
+    if typ.startswith('p2tr') and draw(st.integers(0, 5)) == 0:
+        # two inputs that BOTH spend outputs of the funding transaction: every spent output is known, the taproot digests can be computed
+        ninputs, decoy = 2, True
     c = S.build(rnd, typ, ninputs=ninputs, same_fund_decoy=decoy, allow_invalid=True)
     corr = S.corrupt(c, draw(st.sampled_from(S.CORR)), rnd)
     # flag modifications: consistent sets only; the three activation flags form their own class
@@ -184,6 +187,8 @@ def check_spend(case, ctx):
     ctx.case(key, reached or case['corr'] in ('proghash', 'witscript_bit', 'wrong_key'), dict(case_json(case), reference=ref_err or 'valid', debugger=tv or 'valid'), cls)
     ctx.count('type:' + typ)
     ctx.count('verdict:' + ('valid' if ref_err is None else 'invalid'))
+    if typ.startswith('p2tr') and len(tx.vin) >= 2 and all(v['txid'] == fund.txid() for v in tx.vin):
+        ctx.count('taproot-multi-input-all-from-the-funding-transaction:' + ('valid' if ref_err is None else 'invalid'))
     if c['meta'].get('leafkind'):
         ctx.count('leafkind:%s%s' % (c['meta']['leafkind'], ':' + (ref_err or 'valid') if c['meta']['leafkind'] == 'sigreuse' and case['corr'] == 'none' else ''))
     ctx.count('cell:%s/%s' % (typ, 'valid' if case['corr'] == 'none' else case['corr']))
@@ -229,7 +234,10 @@ def classify(case, c, r, ref_err, tv, idx):
     typ = c['type']
     tx = c['tx']
     flags = case['flags']
-    if typ.startswith('p2tr') and len(tx.vin) >= 2 and ref_err is None and tv and tv.startswith('error:'):
+    fid = c['fund'].txid()
+    all_from_fund = all(v['txid'] == fid and v['n'] < len(c['fund'].vout) for v in tx.vin)
+    if typ.startswith('p2tr') and len(tx.vin) >= 2 and not all_from_fund and ref_err is None and tv and tv.startswith('error:'):
+        # (when every input spends an output of the funding transaction all spent outputs are known and the spend must validate)
         return 'C03-multi-input-taproot'
     # only where the session layout is derived from the shape of the transactions: outputs that are (or P2SH-wrap) a witness program.
     # A plain legacy P2SH spend honours a removed P2SH flag on the unchanged tree and stays fully checked.
